@@ -249,8 +249,14 @@ class SqliteMetadataStore(MetadataStore):
         return True
 
     def remove(self, name: str) -> None:
+        import sqlite3
+
         db = self._db_for(name)
-        db.execute("DELETE FROM files2 WHERE path = ?", (name,))
+        try:
+            db.execute("DELETE FROM files2 WHERE path = ?", (name,))
+        except sqlite3.OperationalError as e:
+            # Raise what callers handle, for consistency with the file system version
+            raise OSError(str(e)) from e
         self.dirty_shards.add(self._shard_index(name))
 
     def commit(self) -> None:
